@@ -30,6 +30,11 @@ pub enum Intent {
     Cdc { t: u8, ts: i8 },
     /// an undo point (never leaves the replica)
     Undo,
+    /// operations recorded without regard to the local state (a caller using TaskData::create on
+    /// an existing task, or a stale TaskData after a delete); the library tolerates them
+    RawCreate { t: u8 },
+    RawDelete { t: u8 },
+    RawSet { t: u8, p: u8, v: u8, ts: i8 },
 }
 
 #[derive(Clone, Debug, PartialEq, Eq, Hash, Serialize, Deserialize)]
@@ -59,6 +64,21 @@ pub fn intent_strategy(tasks: u8) -> impl Strategy<Value = Intent> + Clone {
     intent_strategy_ext(tasks, 3, 6)
 }
 
+/// As `intent_strategy_ext`, plus one extra task (index `tasks`) that is never deleted in the
+/// history and on which redundant creations are recorded, as a caller using
+/// `TaskData::create` on a task that already exists would.  Other operations that are invalid
+/// against the local state (updates or deletes of missing tasks, redundant creations of tasks
+/// that are deleted elsewhere) are outside the synchronization model: storage.md says a replica
+/// must not create them, and with them the unchanged code does not converge.
+pub fn intent_strategy_raw(tasks: u8, pmax: u8, vmax: u8) -> BoxedStrategy<Intent> {
+    prop_oneof![
+        30 => intent_strategy_ext(tasks, pmax, vmax),
+        3 => (0u8..pmax, 0u8..vmax, -2i8..=2).prop_map(move |(p, v, ts)| Intent::Set { t: tasks, p, v, ts }),
+        2 => Just(Intent::RawCreate { t: tasks }),
+    ]
+    .boxed()
+}
+
 /// `pmax` > 3 and `vmax` > 4 reach into a case-supplied string table (see `Realizer::strings`).
 pub fn intent_strategy_ext(tasks: u8, pmax: u8, vmax: u8) -> impl Strategy<Value = Intent> + Clone {
     prop_oneof![
@@ -81,8 +101,8 @@ pub fn action_strategy_ext(
     pmax: u8,
     vmax: u8,
 ) -> BoxedStrategy<Action> {
-    let intents = proptest::collection::vec(intent_strategy_ext(tasks, pmax, vmax), 1..=4);
-    let few = proptest::collection::vec(intent_strategy_ext(tasks, pmax, vmax), 0..=2);
+    let intents = proptest::collection::vec(intent_strategy_raw(tasks, pmax, vmax), 1..=4);
+    let few = proptest::collection::vec(intent_strategy_raw(tasks, pmax, vmax), 0..=2);
     if big_weight == 0 {
         prop_oneof![
             5 => (0..replicas, intents).prop_map(|(r, intents)| Action::Commit { r, intents }),
@@ -219,6 +239,35 @@ impl Realizer {
                     local.apply(&MOp::Create(uuid));
                 }
                 Intent::Undo => out.push(Operation::UndoPoint),
+                Intent::RawCreate { t } => {
+                    let uuid = task_uuid(*t as usize);
+                    out.push(Operation::Create { uuid });
+                    local.apply(&MOp::Create(uuid));
+                }
+                Intent::RawDelete { t } => {
+                    let uuid = task_uuid(*t as usize);
+                    let old_task = local
+                        .0
+                        .get(&uuid)
+                        .map(|m| m.iter().map(|(k, v)| (k.clone(), v.clone())).collect())
+                        .unwrap_or_default();
+                    out.push(Operation::Delete { uuid, old_task });
+                    local.apply(&MOp::Delete(uuid));
+                }
+                Intent::RawSet { t, p, v, ts: tsv } => {
+                    let uuid = task_uuid(*t as usize);
+                    let value = self.value(*v);
+                    let prop = self.prop(*p);
+                    let old_value = local.0.get(&uuid).and_then(|m| m.get(&prop)).cloned();
+                    out.push(Operation::Update {
+                        uuid,
+                        property: prop.clone(),
+                        old_value,
+                        value: value.clone(),
+                        timestamp: ts(*tsv as i64),
+                    });
+                    local.apply(&MOp::Update(uuid, prop, value, String::new()));
+                }
             }
         }
     }
@@ -495,6 +544,9 @@ pub fn render_intent(i: &Intent) -> String {
         }
         Intent::Cdc { t, ts } => format!("create-delete-create(t{t})@{ts}"),
         Intent::Undo => "undo-point".to_string(),
+        Intent::RawCreate { t } => format!("raw-create(t{t})"),
+        Intent::RawDelete { t } => format!("raw-delete(t{t})"),
+        Intent::RawSet { t, p, v, ts } => format!("raw-set(t{t}.{}:{v}@{ts})", PROPS[*p as usize % 3]),
     }
 }
 
